@@ -129,7 +129,7 @@ def _raw_rows(table):
     """Rows with metadata as raw bytes regardless of schema."""
     import tskit
 
-    if str(table.metadata_schema) != "":
+    if table.metadata_schema.schema is not None:
         table = table.copy()
         table.metadata_schema = tskit.MetadataSchema(None)
     return list(table)
